@@ -37,8 +37,8 @@ func genCase(t *rapid.T, mode string) Case {
 	nd := rapid.IntRange(0, vstat.Pick(60, 150)).Draw(t, "ndecs")
 	for i := 0; i < nd; i++ {
 		cls := rapid.IntRange(0, 8).Draw(t, "class")
-		if mode == "C04" && rapid.IntRange(0, 30).Draw(t, "shutdownDice") == 0 {
-			cls = 9
+		if rapid.IntRange(0, 30).Draw(t, "shutdownDice") == 0 {
+			cls = 9 // only has an effect in cases that allow shutdown moves
 		}
 		c.Decs = append(c.Decs, Dec{C: cls, I: rapid.IntRange(0, 7).Draw(t, "idx")})
 	}
@@ -47,9 +47,11 @@ func genCase(t *rapid.T, mode string) Case {
 		for i := 0; i < nf; i++ {
 			c.Faults = append(c.Faults, Fault{At: rapid.IntRange(0, 30).Draw(t, "faultAt"), Kind: rapid.IntRange(1, 2).Draw(t, "faultKind")})
 		}
+		c.Shutdown = rapid.IntRange(0, 5).Draw(t, "allowShutdown") == 0
 	} else {
 		c.Shutdown = rapid.IntRange(0, 3).Draw(t, "allowShutdown") == 0
 	}
+	c.HonourCtx = rapid.Bool().Draw(t, "honourCtx")
 	return c
 }
 
@@ -77,6 +79,9 @@ func record(prop string, c Case, info Info, trace []string) {
 	}
 	if c.Providers > 1 {
 		cl = append(cl, "multi_provider")
+	}
+	if c.HonourCtx {
+		cl = append(cl, "storage_refuses_done_contexts")
 	}
 	shared := map[int]int{}
 	for _, w := range c.Workers {
